@@ -98,7 +98,8 @@ Definition nodes_of (g : grid) (nmax : Z) : sx :=
    (7 ind) getCoordinatesByIndice   (8 icorner) getCoordinatesByCorner   (10 coor rank) sampleBelongsToCell   (11) getCenterIndices
    (12|13 nmult flagCell) multiple / divider   (14 nshift mode) dilate   (15 ind percent) indicesToCoordinate
    (16 rank shift) getCellCoordinatesByCorner   (17 k) iteratorInit + k iteratorNext   (21 ind idim) indiceToCoordinate
-   (22 coor) point_to_grid *)
+   (22 coor) point_to_grid   (23) db_grid_define_coordinates   (24) generateCoordinates   (25) getAllCoordinates
+   (26) getAllCoordinatesMat   (27 rank) getSampleCoordinates   (28 pos indice) getSlice  [24-26, 28: every node, by rank] *)
 Definition asQuery (s : sx) : option query :=
   match s with
   | L [I f; a; b] =>
@@ -111,6 +112,7 @@ Definition asQuery (s : sx) : option query :=
       else if Z.eqb f 15 then match asZs a, asQs b with Some i, Some p => Some (QIndicesToCoordinate i p) | _, _ => None end
       else if Z.eqb f 16 then match asZ a, asZs b with Some r, Some sh => Some (QCellCorner r sh) | _, _ => None end
       else if Z.eqb f 21 then match asZs a, asNat b with Some i, Some d => Some (QIndiceToCoordinate i d) | _, _ => None end
+      else if Z.eqb f 28 then Some QAllNodes
       else None
   | L [I f; a] =>
       if Z.eqb f 2 then match asZ a with Some r => Some (QRankToIndice r) | None => None end
@@ -120,6 +122,7 @@ Definition asQuery (s : sx) : option query :=
       else if Z.eqb f 8 then match asZs a with Some i => Some (QCoordinatesByCorner i) | None => None end
       else if Z.eqb f 17 then match asNat a with Some k => Some (QIterate k) | None => None end
       else if Z.eqb f 22 then match asQs a with Some c => Some (QPointToGrid c) | None => None end
+      else if Z.eqb f 27 then match asZ a with Some r => Some (QCoordinatesByRank r) | None => None end
       else None
   | L [I f; a; b; c] =>
       match asQs a, asB b, asQ c with
@@ -128,7 +131,8 @@ Definition asQuery (s : sx) : option query :=
           else if Z.eqb f 5 then Some (QCoordinateToIndices co ce e) else None
       | _, _, _ => None
       end
-  | L [I f] => if Z.eqb f 11 then Some QCenterIndices else None
+  | L [I f] => if Z.eqb f 11 then Some QCenterIndices else if Z.eqb f 23 then Some QDefineCoordinates
+               else if Z.eqb f 24 || Z.eqb f 25 || Z.eqb f 26 then Some QAllNodes else None
   | _ => None
   end.
 Definition ofAnswer (a : answer) : sx :=
@@ -138,6 +142,7 @@ Definition ofAnswer (a : answer) : sx :=
   | ADerived (Some p) => L [I 1; ofZs (fst (fst p)); ofQs (snd (fst p)); ofQs (snd p)]
   | ADerived None => L [I 0]
   | AZss l => ofList ofZs l
+  | AQss l => ofList ofQs l
   end.
 (* margin of the decisions taken on reals by a query (1 = none) *)
 Definition query_margin (g : grid) (q : query) : Q :=
@@ -358,6 +363,13 @@ Definition run (c : sx) : sx :=
       | Some gi', Some vs', Some go', Some ep', Some dm', Some fl' => run_g2g gi' vs' go' ep' dt dm' fl'
       | _, _, _, _, _, _ => sx_error 1
       end
+  | L [I 16%Z; g; L its] =>          (* the same session model, driven on a DbGrid object by the harness *)
+      match asGrid g, mapM asItem its with
+      | Some g', Some its' => L (msession_sx g' its')
+      | _, _ => sx_error 1
+      end
+  | L [I 17%Z; g; I op; I arg] =>    (* createFromGridShrink / Extend: parent geometry only; the comparison is child vs parent on the implementation *)
+      match asGrid g with Some g' => L [ofZs (g_nx g'); ofQs (g_dx g'); ofQs (g_x0 g')] | None => sx_error 1 end
   | L [I 14%Z; g; L its] =>
       match asGrid g, mapM asItem its with
       | Some g', Some its' => L (msession_sx g' its')
